@@ -161,9 +161,12 @@ static void shop(const Args& a, bool withmodel) {
   if (withmodel) {
     std::string o2 = current_op();
     for (int l = 0; l < c.L; ++l) { o2 += " " + std::to_string(c.sets[size_t(l)].C.size()) + " " + std::to_string(c.sets[size_t(l)].S.size()); for (double d : c.sets[size_t(l)].C) o2 += " " + hx(d); for (double d : c.sets[size_t(l)].S) o2 += " " + hx(d); }
+    // what the circle evaluation is given: p = hypot(x, y) and (sin, cos) of the longitude in degrees, as CircularEngine::operator()(lon) forms them
+    double slon, clon; Math::sincosd(lon, slon, clon);
+    o2 += " " + hx(p) + " " + hx(slon) + " " + hx(clon);
     current_op() = o2;
   }
-  emit(hx(v) + " " + hx(gx) + " " + hx(gy) + " " + hx(gz) + " " + hx(vc) + " " + hx(mag) + " " + hx(gmag));
+  emit(hx(v) + " " + hx(gx) + " " + hx(gy) + " " + hx(gz) + " " + hx(vc) + " " + hx(mag) + " " + hx(gmag) + " " + hx(double(om.bound)) + " " + hx(vcg) + " " + hx(cgx) + " " + hx(cgy) + " " + hx(cgz));
   if (!(std::isfinite(mag) && std::isfinite(gmag) && mag < 1e290 && gmag < 1e290)) { stat("sh-overflow-skipped"); return; }
   // documented accuracy class of the harmonic sums: 1e-12 relative to sum|terms| for degree <= 32, growing linearly with the length of the recurrences
   const double rel = 1e-12 * std::fmax(1.0, (N + 1) / 32.0);
